@@ -132,6 +132,7 @@ static void sigsvc_execute(const Plan &p, const ExecOpts &, Result &r) {
                     if ((ret != 0) != exp_ret) { r.violate("C01", "sign_result", api, cell + ": returned " + std::to_string(ret) + ", the model of the retry loop expects " + std::to_string(exp_ret)); break; }
                     if (ctl.calls != exp_calls || !ctl.counter_ok) { r.violate("C01", "retry_loop", api, cell + ": nonce callback invoked " + std::to_string(ctl.calls) + " times (expected " + std::to_string(exp_calls) + ")" + (ctl.counter_ok ? "" : ", counter argument is not the number of earlier attempts")); break; }
                     if (!ctl.args_ok) { r.violate("C01", "callback_args", api, cell + ": callback did not receive the caller's message/key (or a non-NULL algo16)"); break; }
+                    r.ev(cell + " -> " + std::to_string(ret) + " calls " + std::to_string(ctl.calls) + " " + hex(sig64, 64).substr(0, 24) + " " + std::to_string(recid));
                     if (!ret) {
                         bool z = true; for (int i = 0; i < 64; i++) if (sig64[i]) z = false;
                         if (!z || recid != 0) { r.violate("C01", "not_zeroed", api, cell + ": signing failed but the signature is not all-zero" + (recid ? " (recid != 0)" : "")); break; }
